@@ -53,6 +53,15 @@ CHECKS.update({
  "C18": dict(engine="pdi", section="6/C18",
    text="DcSync.tla models configure_dc_sync and the per-cycle arithmetic; TLC checks OnlySelectedTouched, StartIsMultipleInInterval, RangeRejected, OnlyRangeRejected, NoReferenceRejected, SetupTotal, CycleExact exhaustively at scaled widths; Apalache discharges StartInv and CycleInv at the true 64/32-bit widths; the real code runs on the simulated segment with the reference clock preset to boundary and seeded 64-bit values (periods 1..2^32+, delays, shifts, every mix of DC support and sync modes) and DcSyncTrace re-verifies start = k*period, the interval, the activation flags, the untouched devices, offset = time mod period and wait = period - offset + shift with BigNat over quotient witnesses.",
    note="Witness quotients are computed by the driver and re-verified by the specification; the simulated reference clock is the trusted time source."),
+ "C12": dict(engine="eeprom", section="6/C12",
+   text="SiiRead.tla models EepromRange (window from start word and byte length, chunk assembly with odd-offset skip and end clamp, 4/8-byte devices); TLC proves ReturnsExactlyRange, NeverBeyondWindow and AccessesBounded for every start, length 0..20 and both chunk sizes. SiiImage.tla specifies the SII format (header words, category list, strings, general, FMMU, sync managers, FMMU_EX, PDOs with entry sums, container limits) as functions of the image bytes. The real MainDevice reads (start word, length) ranges through eeprom_read_raw / eeprom_read::<T> on simulated devices of 8 kbit to 4 Mbit serving 4 or 8 bytes per access, and SiiReadTrace requires exactly the bytes of the harness' own image copy, full length, nothing beyond the count, and the read count SiiRead predicts. Random device descriptions within the property's quantifier are encoded to images; SiiImageTrace requires every query of ethercrab's parser (through the field dump hook) and the identity/name/alias of the initialised SubDevice to equal SiiImage's reading of the image, and SiiImage's reading to equal the description (oracle cross-check).",
+   note="Strings longer than the MainDevice's containers (64/128 bytes) are specified as StringTooLong; the port and physical-memory-address fields of the general category are outside the property and not compared (ethercrab reads them two bytes early, see DESIGN 11.3). A string index one past the table is not judged."),
+ "C13": dict(engine="eeprom", section="6/C13",
+   text="SiiCategories.tla models the category walk with its 16-bit arithmetic made explicit against an adversarial EEPROM (headers chosen freely at every address the walk visits, remembered so that wrapping chains are real loops); TLC proves NoOverflowEvent, Monotone (the cursor strictly increases, hence termination) and NoRevisit for the repaired arithmetic in both the overflow-checking and the wrapping build, and finds the panic and the endless loop when Checked = FALSE. The adversarial seeds of the property (blank, all ones, length 0xFFFF categories, wrap-to-self chains, size word >= 511, string index one past the table, 255 x 255 bit PDO sums, 65 PDOs, 9 sync managers, truncated items), seeded random and structured-then-mutated images are given to the parser (every device access counted and logged) and to a simulated device that the real MainDevice initialises and takes to OP, in a build with and one without overflow checks. SiiHostileTrace requires an orderly end of every query and of the initialisation (no panic, hang, exhausted budget), every query within the access bound derived from the format, and replays the access log against SiiCategories: each access must be a header read, the walk's next step at the address the model computes, or inside the found category.",
+   note="The access log holds the first 3000 accesses per case (longer walks are validated on that prefix). TLC infers which category a walk was looking for."),
+ "C14": dict(engine="eeprom", section="6/C14",
+   text="SiiWrite.tla models the alias update (alias word, CRC-8 poly 0x07 init 0xFF over the first fourteen bytes as they read after the change, recomputed in TLA+ with Bitwise) and write_word's retry loop against a device answering 0..25 command errors; TLC proves RetryBounded, OkMeansStored and EventuallyStored. set_alias_address and eeprom_write_dangerously run on simulated devices with scripted SII behaviour (command errors, busy polls, both chunk sizes); SiiWriteTrace requires exactly two changed words (alias, checksum) with the checksum TLA+ computes from the before-image, every other byte unchanged, the reported alias to be the new one, an error when the device keeps refusing beyond the bound, and generic writes to store exactly the given bytes (odd tail padded with zero) and report the consumed count.",
+   note="eeprom_write_dangerously accepts sized integers only (1, 2, 4, 8 bytes); thorough covers thousands of aliases, all 65536 with VERIF_ALL_ALIASES=1."),
 })
 NOT_BUILT = {}
 def main():
@@ -93,6 +102,8 @@ def main():
                  kind_free_text="RxTriage.tla + RxTriageMC/Trace; harness rxtriage (prepared slot states, before/after snapshots)"),
             dict(name="wirelayout", path="checks/wirelayout.py", serves_properties=["C19"],
                  kind_free_text="WireLayout.tla + WireLayoutMC/Trace; generated crate harness/wiregen"),
+            dict(name="eeprom", path="checks/eeprom.py", serves_properties=["C12", "C13", "C14"],
+                 kind_free_text="SiiRead/SiiImage/SiiCategories/SiiWrite + SiiReadTrace/SiiImageTrace/SiiHostileTrace/SiiWriteTrace; vsim2 eeprom engine (public API on simulated devices, parser over an in-memory provider through the hooks)"),
             dict(name="simdev", path="harness/simdev", serves_properties=["C07", "C09", "C10", "C11", "C18"],
                  kind_free_text="simulated EtherCAT segment + vsim engines (init, alstate, wkc) driving the real MainDevice under a virtual clock; InitSeq/AlState specifications with trace validation"),
             dict(name="pduloop", path="checks/pduloop.py", serves_properties=[p for p in ["C01","C02","C03","C06"] if p in CHECKS],
